@@ -111,21 +111,39 @@ func (w *workerProc) do(cmd workerCmd, timeout time.Duration) (v *Verdict, crash
 	}
 	ch := make(chan res, 1)
 	if !crashed {
+		hb := make(chan struct{}, 64)
 		go func() {
-			var v Verdict
-			err := w.dec.Decode(&v)
-			ch <- res{&v, err}
-		}()
-		select {
-		case r := <-ch:
-			if r.err == nil {
-				return r.v, false, false, ""
+			for {
+				var v Verdict
+				err := w.dec.Decode(&v)
+				if err == nil && v.HB {
+					select {
+					case hb <- struct{}{}:
+					default:
+					}
+					continue
+				}
+				ch <- res{&v, err}
+				return
 			}
-			crashed = true
-		case <-time.After(timeout):
-			timedOut = true
-			w.cmd.Process.Kill()
-			<-ch
+		}()
+	wait:
+		for {
+			select {
+			case r := <-ch:
+				if r.err == nil {
+					return r.v, false, false, ""
+				}
+				crashed = true
+				break wait
+			case <-hb:
+				// progress: restart the no-progress timer
+			case <-time.After(timeout):
+				timedOut = true
+				w.cmd.Process.Kill()
+				<-ch
+				break wait
+			}
 		}
 	}
 	err := w.cmd.Wait()
